@@ -41,6 +41,13 @@ SHAPES = {
     "srcdir": {"targets": {"T1": T(srcs=["d1"]), "T2": T(deps=["T1"])}, "sources": ["d1"], "dirs": ["d1"]},
     "always": {"targets": {"T1": T(always=True), "T2": T(deps=["T1"]), "T3": T(srcs=["s1"])}, "sources": ["s1"]},
 }
+# shapes whose builds fail by construction (missing / cyclic dependencies): only the event protocol
+# is of interest there
+FAILING_SHAPES = {
+    "missing": {"targets": {"T1": T(deps=["X1", "X2"], srcs=["s1"]), "T2": T(deps=["T1", "X3"]), "T3": T(deps=["T2"])}, "sources": ["s1"]},
+    "cycle2": {"targets": {"R": T(deps=["A", "C"]), "A": T(deps=["B"]), "B": T(deps=["A", "C"]), "C": T(srcs=["s1"])}, "sources": ["s1"]},
+    "selfdep": {"targets": {"R": T(deps=["A"]), "A": T(deps=["A", "X1"])}, "sources": []},
+}
 RESHAPE = {"chain3": {"targets": {"T1": T(srcs=["s1"]), "T2": T(deps=["T1"])}, "sources": ["s1"]}}
 
 
@@ -289,6 +296,11 @@ def harness_cases(tier, sd):
             add("sess", name, [B(top), es, B(inner[0], reuse=True), B(top, reuse=True)])
             if others:
                 add("sess", name, [B(top), B(top), es, B(others[-1], reuse=True), B(top, reuse=True), es, B(top, reuse=True)])
+    for name, shape in FAILING_SHAPES.items():
+        for top in sorted(shape["targets"]):
+            c = {"id": "bad-%s-%d" % (name, len(cases)), "shape": shape, "seed": 0,
+                 "steps": [dict(B(top), clean=False), dict(B(top, "dry"), clean=False), dict(B(top, rerun=True), clean=False)]}
+            cases.append(c)
     # (c) systematic crash enumeration: every point x label x hit on selected shapes
     crash_shapes = ["chain", "generated"] if quick else ["chain", "generated", "diamond", "twopkg", "always"]
     for name in crash_shapes:
